@@ -456,6 +456,12 @@ impl SeqModel {
                 Some(_) => Expect::Rejected(vec!["Schema", "Other", "NotFound"]),
             },
             Op::Remove(id) => Expect::Removed(self.docs.docs.get(id).cloned().map(Box::new)),
+            // creating the vector index backfills it: a stored vector of another
+            // dimension (written while no vector index existed) legitimately makes
+            // the creation fail
+            Op::ReopenWith(IdxDelta::AddEmb) if !idx.emb && self.docs.docs.values().any(|d| d.emb.len() != crate::fixture::DIM) => {
+                Expect::Rejected(vec!["Other"])
+            }
             Op::Get(id) => match self.docs.docs.get(id) {
                 Some(d) => Expect::Doc(Box::new(d.clone())),
                 None => Expect::Rejected(vec!["NotFound"]),
